@@ -10,7 +10,7 @@
 //! tables  ks.tb,ks.tb            (hex)            watched tables
 //! tokens  t,t,...                (signed hex)     watched tokens
 //! dcs     d,d,...                (hex)            watched datacenters
-//! Pb <value bytes hex | N (key absent)> | none | a:<first>:<last>:<host.shard,..> | r<error class>   (from_custom_payload alone)
+//! Pb <value bytes hex | N (key absent)> | none | a:<first>:<last>:<host.shard,..> | rDeserialization:<leaf kind> | rWrongTokenRange | rShardNum   (from_custom_payload alone)
 //! op      B/<ks>.<tb>/<value bytes hex | N>/<known nodes>     (result tag as for Pb)
 //!         L/<ks>.<tb>/<a>/<b>/<h>.<shard>,.. | -/<known nodes>
 //!         M/<keyspaces>/<removed hosts>/<current nodes>/<recreated nodes>
@@ -23,6 +23,12 @@ use bytes::Bytes;
 use scylla::cluster::verif_node::node_without_pool;
 use scylla::cluster::{Node, NodeAddr};
 use scylla::routing::locator::verif_tablets::{KeyspaceDesc, Replica, TabletView, VerifTablets};
+use scylla_cql_core::deserialize::DeserializationError;
+use scylla_cql_core::deserialize::value::{
+    BuiltinDeserializationError, BuiltinDeserializationErrorKind as DK, SetOrListDeserializationErrorKind,
+    TupleDeserializationErrorKind,
+};
+use scylla_cql_core::frame::frame_errors::LowLevelDeserializationError;
 use std::collections::{BTreeSet, HashMap, HashSet, VecDeque};
 use std::fmt::Write as _;
 use std::sync::Arc;
@@ -167,7 +173,8 @@ fn decode_tag(bytes: &Option<Vec<u8>>) -> Option<String> {
         None => HashMap::from([("some-other-key".to_string(), Bytes::from_static(&[1, 2, 3]))]),
         Some(b) => HashMap::from([(PAYLOAD_KEY.to_string(), Bytes::from(b.clone()))]),
     };
-    let r = catch(std::panic::AssertUnwindSafe(|| scylla::routing::locator::verif_tablets::raw_tablet_from_payload(&payload)));
+    use scylla::routing::locator::verif_tablets::{VerifPayloadError, raw_tablet_from_payload_full};
+    let r = catch(std::panic::AssertUnwindSafe(|| raw_tablet_from_payload_full(&payload)));
     match r {
         Err(_) => None,
         Ok(None) => Some("none".into()),
@@ -177,8 +184,30 @@ fn decode_tag(bytes: &Option<Vec<u8>>) -> Option<String> {
             hex_i(l as i128),
             join(&reps, ",", |(u, sh)| format!("{}.{}", hex_u(u.as_u128()), hex_u(*sh as u128)))
         )),
-        Ok(Some(Err(e))) => Some(format!("r{}", e)),
+        Ok(Some(Err(VerifPayloadError::Deserialization(e)))) => Some(format!("rDeserialization:{}", de_leaf(&e))),
+        Ok(Some(Err(VerifPayloadError::TypeCheck))) => Some("rTypeCheck".into()),
+        Ok(Some(Err(VerifPayloadError::ShardNum))) => Some("rShardNum".into()),
+        Ok(Some(Err(VerifPayloadError::WrongTokenRange))) => Some("rWrongTokenRange".into()),
     }
+}
+/// the innermost kind of a (nested) typed deserialisation error
+fn de_leaf(e: &DeserializationError) -> String {
+    if let Some(b) = e.downcast_ref::<BuiltinDeserializationError>() {
+        return match &b.kind {
+            DK::RawCqlBytesReadError(_) => "RawCqlBytesRead".into(),
+            DK::ExpectedNonNull => "ExpectedNonNull".into(),
+            DK::ByteLengthMismatch { .. } => "ByteLengthMismatch".into(),
+            DK::SetOrListError(SetOrListDeserializationErrorKind::LengthDeserializationFailed(_)) => "LengthDeser".into(),
+            DK::SetOrListError(SetOrListDeserializationErrorKind::ElementDeserializationFailed(i)) => de_leaf(i),
+            DK::TupleError(TupleDeserializationErrorKind::FieldDeserializationFailed { err, .. }) => de_leaf(err),
+            k => format!("Other:{:?}", k).replace(' ', "_"),
+        };
+    }
+    if e.downcast_ref::<LowLevelDeserializationError>().is_some() {
+        // impl_tuple wraps a failed [bytes] read of a field directly
+        return "RawCqlBytesRead".into();
+    }
+    "Other".into()
 }
 fn p_dc(s: &str) -> Option<u32> {
     if s == "n" { None } else { Some(p_u(s) as u32) }
